@@ -82,6 +82,17 @@ fn keyword_module() -> String {
             comps.join(", "), alts.join(", "), KW.join(", "))
 }
 
+/// SEQUENCE / SET types whose components all have a DEFAULT get an `impl Default` that calls the components' default functions:
+/// definition and call must agree on the function's name for every shape of type name (Idents.tla: DefaultFnAgreement)
+fn default_impl_module() -> String {
+    let names = ["Plain", "PDU-Config", "MY-Seq", "Profile-2", "T4X", "NGAP-PDU-x", "Ab-CD-ef", "X509-Cert", "A-b", "ABc"];
+    let defs: Vec<String> = names.iter().enumerate().map(|(i, n)| {
+        let kind = if i % 2 == 0 { "SEQUENCE" } else { "SET" };
+        format!("{n} ::= {kind} {{ a INTEGER (0..7) DEFAULT 1, b-c BOOLEAN DEFAULT TRUE, dE UTF8String DEFAULT \"x\" }}")
+    }).collect();
+    format!("Dfltmod DEFINITIONS AUTOMATIC TAGS ::= BEGIN\n{}\nEND\n", defs.join("\n"))
+}
+
 fn enum_module() -> String {
     const NUMS: [Option<i64>; 6] = [None, Some(-1), Some(0), Some(1), Some(2), Some(5)];
     let mut roots: Vec<Vec<Option<i64>>> = vec![];
@@ -137,6 +148,7 @@ pub fn drive(args: &[String]) -> i32 {
                                               && c["cfg"]["from"] == false && c["cfg"]["nostd"] == false) {
         jobs.push((vec![enum_module()], j, "enums"));
         jobs.push((vec![keyword_module()], j, "keywords"));
+        jobs.push((vec![default_impl_module()], j, "default impls"));
     }
     // real-world modules of the repository that stand alone (no IMPORTS) -- beyond the generator grammar
     if let Some(dir) = util::arg(args, "--corpus") {
